@@ -150,8 +150,20 @@ class C13:
                               ['lit', rng.randint(0, 2)]])
         sel = [t['x'] for t in tops]
         rng.shuffle(sel)
-        return dict(classes=classes, heap=heap, terms=tops, extra=extra, sel=sel,
+        case = dict(classes=classes, heap=heap, terms=tops, extra=extra, sel=sel,
                     quant_form=rng.choice(['entity', 'set_of']), clear_registry=rng.random() < 0.2)
+        if rng.random() < 0.25:
+            # the supplied domains are list OBJECTS that an earlier query was built over (and possibly evaluated) while they held other
+            # members; they are edited in place before the query of the case is built: it ranges over what the lists hold NOW
+            def mark(ps):
+                for p in ps:
+                    p['d0'] = rng.sample(range(nobj), rng.randint(1, min(6, nobj)))
+                    for a in p['args']:
+                        if a[-1][0] == 'nest':
+                            mark([a[-1][1]])
+            mark(tops)
+            case['edited'] = rng.choice(['built', 'evaluated'])
+        return case
 
     # ------------------------------------------------------------------------------------------ Coq side
     def to_coq(self, n, case):
